@@ -150,7 +150,9 @@ where
 
     pub fn clear(&self, id: TimerId) {
         self.context.spawn({
-            {
+            // only a timer whose future still exists can notice that it was cleared; remembering
+            // the id of one that has already completed (or was dropped) would keep it forever
+            if LIVE_TIMER_IDS.lock().unwrap().contains(&id) {
                 let mut lock = CLEARED_TIMER_IDS.lock().unwrap();
                 lock.insert(id);
             }
@@ -209,6 +211,7 @@ where
     F: Future<Output = TimeResponse> + Unpin,
 {
     fn new(timer_id: TimerId, future: F) -> Self {
+        LIVE_TIMER_IDS.lock().unwrap().insert(timer_id);
         Self {
             timer_id,
             future,
@@ -217,11 +220,27 @@ where
     }
 }
 
+impl<F> Drop for TimerFuture<F>
+where
+    F: Future<Output = TimeResponse> + Unpin,
+{
+    fn drop(&mut self) {
+        // the timer is gone: forget it, and a clear it never got to see
+        LIVE_TIMER_IDS.lock().unwrap().remove(&self.timer_id);
+        CLEARED_TIMER_IDS.lock().unwrap().remove(&self.timer_id);
+    }
+}
+
 // Global HashSet containing the ids of timers which have been _cleared_
 // but the whose futures have _not since been polled_. When the future is next
 // polled, the timer id is evicted from this set and the timer is 'poisoned'
 // so as to return immediately without waiting on the shell.
 static CLEARED_TIMER_IDS: LazyLock<Mutex<HashSet<TimerId>>> =
+    LazyLock::new(|| Mutex::new(HashSet::new()));
+
+// The ids of the timers whose futures currently exist. A timer can only be cleared while it is
+// in this set, which keeps `CLEARED_TIMER_IDS` bounded by the number of live timers.
+static LIVE_TIMER_IDS: LazyLock<Mutex<HashSet<TimerId>>> =
     LazyLock::new(|| Mutex::new(HashSet::new()));
 
 /// Number of cleared timer ids the legacy capability still remembers
